@@ -2,25 +2,19 @@
 (* Model-checking / emission wrapper for RespLife.
 
    Sequential part (Eager = TRUE): one caller, every sequence of at most MaxOps calls followed by the final drop.
-     SeqSpec + VIEW SeqView     exhaustive check of the Rules (history hidden: a few thousand states)
+     SeqCheckSpec + VIEW SeqView  exhaustive check of the Rules (history hidden: a few thousand states)
      SeqSpec + EmitSeq          no VIEW: one state per path; at every finished history TLC prints
                                 <<"SEQ", ToJson([fr, sv, mode, hist])>>, hist = per completed call the call, its
                                 result and the expected observation at the call boundary
    Two-thread part (Eager = FALSE): reader thread "a", disposer thread "b", the server as third party.
-     ConcSpec + VIEW ConcView   exhaustive check of every interleaving (safety + liveness under weak fairness)
+     ConcCheckSpec + VIEW ConcView exhaustive check of every interleaving (safety + liveness under weak fairness)
      ConcSpec + EmitSched       complete schedules <<"SCHED", ToJson([...])>> for replay on the real threads   *)
 EXTENDS RespLife, Json, TLCExt
 
 VARIABLE hist
 
 NoFixes == {}
-AllFixes == {"shutdown", "chunkresume", "atomicrelease"}
-FixShutdown == {"shutdown"}
-FixChunk == {"chunkresume"}
-FixAtomic == {"atomicrelease"}
-FixShutdownChunk == {"shutdown", "chunkresume"}
-FixShutdownAtomic == {"shutdown", "atomicrelease"}
-FixChunkAtomic == {"chunkresume", "atomicrelease"}
+AllFixes == {"shutdown", "chunkresume", "atomicrelease", "closeunder"}
 
 \* ---- sequential
 Snap(o, t) == [op |-> o.op[t], res |-> o.res[t], errk |-> o.errk[t], own |-> o.own, hfp |-> o.hfp, sock |-> o.sock,
@@ -33,6 +27,10 @@ SeqNext == \/ /\ \E o \in StepOps : ThreadStep("a", o)
               /\ hist' = IF th'["a"].nops > th["a"].nops THEN Append(hist, Snap(ObsOf(sh', th'), "a")) ELSE hist
            \/ AllDone /\ UNCHANGED <<vars, hist>>
 SeqSpec == SeqInit /\ [][SeqNext]_<<vars, hist>>
+\* exhaustive check: no history
+SeqCheckNext == \/ (\E o \in StepOps : ThreadStep("a", o)) /\ UNCHANGED hist
+                \/ AllDone /\ UNCHANGED <<vars, hist>>
+SeqCheckSpec == SeqInit /\ [][SeqCheckNext]_<<vars, hist>>
 \* everything except the counters that only grow with the length of the history
 SeqView == <<[sh EXCEPT !.io = "none"], [t \in Threads |-> [th[t] EXCEPT !.nops = 0]]>>
 EmitSeq == AllDone => PrintT(<<"SEQ", ToJson([fr |-> sh.fr, sv |-> sh.sv, mode |-> sh.mode, hist |-> hist,
@@ -51,6 +49,11 @@ ConcNext == \/ \E t \in Threads : ThreadStep(t, IF th[t].pc = "Idle" THEN Head(t
             \/ (AllDone \/ Stuck) /\ UNCHANGED <<vars, hist>>
 ThreadAct(t) == ThreadStep(t, IF th[t].pc = "Idle" THEN Head(th[t].prog) ELSE "none") /\ hist' = Append(hist, t)
 ConcSpec == ConcInit /\ [][ConcNext]_<<vars, hist>> /\ \A t \in Threads : WF_<<vars, hist>>(ThreadAct(t))
+ConcCheckAct(t) == ThreadStep(t, IF th[t].pc = "Idle" THEN Head(th[t].prog) ELSE "none") /\ UNCHANGED hist
+ConcCheckNext == \/ \E t \in Threads : ConcCheckAct(t)
+                 \/ Feed /\ UNCHANGED hist
+                 \/ (AllDone \/ Stuck) /\ UNCHANGED <<vars, hist>>
+ConcCheckSpec == ConcInit /\ [][ConcCheckNext]_<<vars, hist>> /\ \A t \in Threads : WF_<<vars, hist>>(ConcCheckAct(t))
 ConcView == <<[sh EXCEPT !.io = "none"], th>>
 Terminal == AllDone \/ Stuck
 EmitSched == Terminal => PrintT(<<"SCHED", ToJson([fr |-> sh.fr, sv |-> sh.sv, pa |-> th["a"].prog0, pb |-> th["b"].prog0,
